@@ -8,7 +8,14 @@ def run_scn(case, key, idx, tapes, seed_idx=None):
     """Execute case[key] with the idx-th tape of the case. Returns (run, tape).
     seed_idx: paired (differential) executions share the tape seed, so that device-side
     decisions (ids, tokens, adversary, latencies) coincide and only the varied dimension differs."""
-    rec = tapes[idx] if tapes and idx < len(tapes) else None
+    rec = None
+    if tapes is not None:
+        if idx < len(tapes):
+            rec = tapes[idx]
+        elif seed_idx is not None and seed_idx < len(tapes):
+            rec = tapes[seed_idx]
+        else:
+            rec = {}
     tape = Tape(h64(case['seed'], 'exec', idx if seed_idx is None else seed_idx), recorded=rec)
     run = execute(case[key], tape)
     return run, tape
